@@ -204,6 +204,9 @@ func (x *Exec) verifyFunc(fn *ssa.Function, c *FuncContract) (err error) {
 		x.probeValue(st.clone(), p.Name(), args[i], 0)
 	}
 	for _, l := range c.Lets {
+		if v := st.ghost[l.Name]; v.T == nil && v.K == KOpaque {
+			continue // a value of a declared sort (e.g. a byte sequence): nothing to probe
+		}
 		x.probeValue(st.clone(), "let."+l.Name, st.ghost[l.Name], 2)
 	}
 	for _, g := range x.ghostNames {
